@@ -415,6 +415,20 @@ def run(repo='/repo', tier='quick'):
                 ok = bool(w) and P.K(w[0]['r']) == 'newsize' and nsd == ['(connp->%s_buf_size + len)' % d]
         res.check(ok, 'C03.c', name + ':append-at-fill', 'new bytes are copied to buf + buf_size and buf_size grows by the same len',
                   'the carried-over line is not extended at buf + buf_size (or the size is not advanced by the copied length): bytes of a line cut by a chunk boundary are overwritten or skipped', f.loc)
+    # ... and after the bytes were copied into the carry buffer the consumer position is moved up to the read position on every
+    # path (otherwise the same bytes are buffered again by the next consolidation that is not followed by a clear)
+    for name in ('htp_connp_req_buffer', 'htp_connp_res_buffer'):
+        f = db.get(name)
+        d = 'in' if 'req' in name else 'out'
+        isreset = lambda st, d=d: any(w['k'] == 'assign' and w['op'] == '=' and P.K(w['r']).endswith('%s_current_read_offset' % d) for w in P.assigns_field(st, '%s_current_consume_offset' % d))
+        for b, i, c in f.calls('memcpy'):
+            okr = True
+            for atoms, events, end, seq in P.enum_paths_seq(f, (b, i)):
+                if end[0] == 'return' and lit_name(P.ret_value(end[3])) == 'HTP_OK' or end[0] == 'exit':
+                    if not any(x[0] == 'stmt' and isreset(x[3]) for x in seq):
+                        okr = False
+            res.check(okr, 'C03.c', '%s:consume-reset-after-copy:%s' % (name, P.K(c['args'][0])[:40]), 'consume offset = read offset on every successful path after the copy',
+                      '%s copies the unconsumed bytes into the carry buffer and can return HTP_OK without moving %s_current_consume_offset up to the read offset: the next consolidation appends the same bytes again (the request line comes out with a duplicated tail when it is split inside a state that does not clear the buffer)' % (name, d), c['loc'])
     for fn in db.fn.values():
         for b, i, c, cnt, ok in P.accumulate_sites(fn):
             res.check(ok, 'C03.c', '%s:accumulate:%s' % (fn.name, cnt), 'memcpy appends at the counter that is then advanced', 'memcpy into a buffer whose fill counter %s is advanced by the same length does not target buffer + %s' % (cnt, cnt), c['loc'])
